@@ -1,10 +1,45 @@
-(* Properties/C08.v — totality.  Statements only. *)
-From Verif Require Import Base.Str Base.Outcome Model.Ast Model.Printer.
+(* Properties/C08.v — no public entry point panics.  Statements only; proofs in Proofs/TotalityProofs.v,
+   WGraphProofs.v, WeightsProofs.v, ModFileProofs.v.
+   PARTIAL BY NATURE.  These theorems establish that the modelled control flow never reaches one of the
+   panic sites the models name (index into an empty rewrite stack, write to the nil extension map,
+   GetGenericTypes()[0], nil metadata dereference).  That the models name every panic site of the Go code
+   is supported by the correspondence (PANIC is an observable of every harness call) over mutation
+   fuzzing and degenerate protobuf models — testing, not proof.  Running time (the quadratic bound) is
+   outside any Gallina model: it is measured on scaled inputs, and the cubic lexing of form-feed runs is
+   known finding K-C08-formfeed.  ANTLR's error recovery (prefix trees) is not modelled: a syntax error is
+   a rejection in the model; panics inside recovered trees were the defect F3, repaired, and are
+   exercised by the fuzzing stream only. *)
+From Verif Require Import Base.Str Base.Outcome Model.Ast Model.Token Model.Lexer Model.Parser Model.Listener
+  Model.Printer Model.Transform Model.ModFile Model.WGraph Model.WWeights Spec.Sem
+  Proofs.TotalityProofs Proofs.WGraphProofs Proofs.WeightsProofs Proofs.ModFileProofs.
 
-(* printing a condition parameter never panics: a list/map parameter without element type is an error *)
+(* the DSL printer, on any protobuf shape *)
+Theorem C08_printer_total : forall src m, is_panic (fst (print_model src m)) = false.
+Proof. exact print_model_no_panic. Qed.
 Theorem C08_param_total : forall c p, is_panic (print_param c p) = false.
 Proof.
   intros c [name [n gen]]. unfold print_param.
   destruct (str_eqb (type_name_string n) (lit "list") || str_eqb (type_name_string n) (lit "map")); [|reflexivity].
   destruct gen as [|[g gs] r]; reflexivity.
 Qed.
+
+(* the listener on every grammatical tree, and ParseDSL on every text *)
+Theorem C08_listener_total : forall f, wf_file f -> is_panic (walk f) = false.
+Proof. exact walk_no_panic. Qed.
+Theorem C08_parse_total : forall d, match dsl_to_model d with DPanic _ => False | _ => True end.
+Proof. exact dsl_to_model_no_panic. Qed.
+
+(* a lexer, parser or listener error is always reported: a model is returned only when there was none *)
+Theorem C08_errors_void : forall d m exts md, dsl_to_model d = DOk m exts md ->
+  snd (lex (prepass d)) = [] /\ exists f s, parse (fst (lex (prepass d))) = Some f /\ walk f = Ok s /\ ls_errs s = [].
+Proof. exact dsl_errors_void. Qed.
+
+(* both stages of the weighted graph, whatever the model and the traversal order *)
+Theorem C08_builder_total : forall m, is_panic (wbuild m) = false.
+Proof. exact wbuild_no_panic. Qed.
+Theorem C08_weights_total : forall o m, is_panic (build_weighted o m) = false.
+Proof. exact build_weighted_no_panic. Qed.
+
+(* fga.mod on any node shapes *)
+Theorem C08_modfile_total : forall schema contents, is_panic (transform_mod schema contents) = false.
+Proof. exact transform_mod_total. Qed.
